@@ -29,18 +29,48 @@ const COIN: u64 = 100_000_000;
 const MAX_MONEY: u64 = 21_000_000 * COIN;
 
 // ---------------------------------------------------------------------------------------------
-// Address fixtures (values only; what they can receive is stated here from the protocol, not asked
+// Recipient fixtures (values only; what they can receive is stated here from the protocol, not asked
 // of the code under test)
 // ---------------------------------------------------------------------------------------------
+
+/// Recipient kinds; a unified address is described by the typecodes of its receivers.
+#[derive(Clone, Copy, Debug, PartialEq, Eq)]
+pub enum Kind {
+    Sprout,
+    Sapling,
+    P2pkh,
+    P2sh,
+    Tex,
+    Unified(&'static [u32]),
+}
+
+/// ZIP 321 / ZIP 316, stated here independently of the code: a memo can only be delivered to a shielded
+/// recipient, i.e. a Sprout or Sapling address or a unified address holding a Sapling (2) or Orchard (3) receiver.
+fn memo_ok(k: Kind) -> bool {
+    match k {
+        Kind::Sprout | Kind::Sapling => true,
+        Kind::P2pkh | Kind::P2sh | Kind::Tex => false,
+        Kind::Unified(tcs) => tcs.iter().any(|t| *t == 2 || *t == 3),
+    }
+}
+
+/// A payment produces a transparent output when the recipient is P2PKH, P2SH or TEX, or a unified address with a
+/// transparent receiver (0 / 1) and no Sapling / Orchard receiver (documented at `is_transparent_only`).
+fn t_only(k: Kind) -> bool {
+    match k {
+        Kind::Sprout | Kind::Sapling => false,
+        Kind::P2pkh | Kind::P2sh | Kind::Tex => true,
+        Kind::Unified(tcs) => tcs.iter().any(|t| *t <= 1) && !tcs.iter().any(|t| *t == 2 || *t == 3),
+    }
+}
 
 #[derive(Clone, Debug)]
 pub struct Addr {
     pub name: String,
+    pub kind: Kind,
     pub z: ZcashAddress,
     pub s: String,
-    /// shielded recipients (Sprout, Sapling, unified with a Sapling/Orchard receiver) can receive a memo
     pub memo_ok: bool,
-    /// P2PKH, P2SH and TEX recipients produce a transparent output
     pub t_only: bool,
 }
 
@@ -53,34 +83,71 @@ fn fill<const N: usize>(salt: u8) -> [u8; N] {
 }
 
 const NETS: [(NetworkType, &str); 3] = [(NetworkType::Main, "main"), (NetworkType::Test, "test"), (NetworkType::Regtest, "regtest")];
-/// per network: 0 sapling, 1 sapling2, 2 p2pkh, 3 p2sh, 4 tex, 5 ua(sapling+p2pkh), 6 ua(orchard), 7 sprout
-const PER_NET: usize = 8;
+/// One recipient for every kind and every combination of the two predicates that a unified address can show.
+/// per network: 0 sapling, 1 sapling2, 2 p2pkh, 3 p2sh, 4 tex, 5 ua(p2pkh+sapling), 6 ua(orchard), 7 sprout,
+/// 8 ua(sapling), 9 ua(unknown only), 10 ua(p2pkh+unknown), 11 ua(p2sh+orchard+unknown)
+const KINDS: [(&str, Kind, u8); 12] = [
+    ("sapling", Kind::Sapling, 1),
+    ("sapling2", Kind::Sapling, 2),
+    ("p2pkh", Kind::P2pkh, 3),
+    ("p2sh", Kind::P2sh, 4),
+    ("tex", Kind::Tex, 5),
+    ("ua-p2pkh-sapling", Kind::Unified(&[0, 2]), 6),
+    ("ua-orchard", Kind::Unified(&[3]), 8),
+    ("sprout", Kind::Sprout, 9),
+    ("ua-sapling", Kind::Unified(&[2]), 10),
+    ("ua-unknown-only", Kind::Unified(&[0x99]), 11),
+    ("ua-p2pkh-unknown", Kind::Unified(&[0, 0x99]), 12),
+    ("ua-p2sh-orchard-unknown", Kind::Unified(&[1, 3, 0xffff]), 13),
+];
+const PER_NET: usize = KINDS.len();
 
 pub fn addrs() -> &'static Vec<Addr> {
     static A: OnceLock<Vec<Addr>> = OnceLock::new();
     A.get_or_init(|| {
         let mut v = Vec::new();
         for (net, nn) in NETS {
-            let mut push = |name: &str, z: ZcashAddress, memo_ok: bool, t_only: bool| {
+            for (name, kind, salt) in KINDS {
+                let z = match kind {
+                    Kind::Sprout => ZcashAddress::from_sprout(net, fill(salt)),
+                    Kind::Sapling => ZcashAddress::from_sapling(net, fill(salt)),
+                    Kind::P2pkh => ZcashAddress::from_transparent_p2pkh(net, fill(salt)),
+                    Kind::P2sh => ZcashAddress::from_transparent_p2sh(net, fill(salt)),
+                    Kind::Tex => ZcashAddress::from_tex(net, fill(salt)),
+                    Kind::Unified(tcs) => {
+                        let items = tcs
+                            .iter()
+                            .map(|t| match *t {
+                                0 => unified::Receiver::P2pkh(fill(salt + 1)),
+                                1 => unified::Receiver::P2sh(fill(salt + 2)),
+                                2 => unified::Receiver::Sapling(fill(salt + 3)),
+                                3 => unified::Receiver::Orchard(fill(salt + 4)),
+                                t => unified::Receiver::Unknown { typecode: t, data: fill::<40>(salt + 5).to_vec() },
+                            })
+                            .collect();
+                        ZcashAddress::from_unified(net, unified::Address::try_from_items(items).expect("well-formed"))
+                    }
+                };
                 let s = z.encode();
-                v.push(Addr { name: format!("{name}-{nn}"), z, s, memo_ok, t_only });
-            };
-            push("sapling", ZcashAddress::from_sapling(net, fill(1)), true, false);
-            push("sapling2", ZcashAddress::from_sapling(net, fill(2)), true, false);
-            push("p2pkh", ZcashAddress::from_transparent_p2pkh(net, fill(3)), false, true);
-            push("p2sh", ZcashAddress::from_transparent_p2sh(net, fill(4)), false, true);
-            push("tex", ZcashAddress::from_tex(net, fill(5)), false, true);
-            let ua = unified::Address::try_from_items(vec![unified::Receiver::Sapling(fill(6)), unified::Receiver::P2pkh(fill(7))]).expect("well-formed");
-            push("ua-sapling-p2pkh", ZcashAddress::from_unified(net, ua), true, false);
-            let ua = unified::Address::try_from_items(vec![unified::Receiver::Orchard(fill(8))]).expect("well-formed");
-            push("ua-orchard", ZcashAddress::from_unified(net, ua), true, false);
-            push("sprout", ZcashAddress::from_sprout(net, fill(9)), true, false);
+                v.push(Addr { name: format!("{name}-{nn}"), kind, z, s, memo_ok: memo_ok(kind), t_only: t_only(kind) });
+            }
         }
         v
     })
 }
 fn addr(net: usize, k: usize) -> &'static Addr {
     &addrs()[net * PER_NET + k]
+}
+/// lead-address code: 0 = no lead address, k + 1 = `addrs()[k]`
+fn lead_addr(code: usize) -> Result<Option<&'static Addr>, String> {
+    if code == 0 {
+        Ok(None)
+    } else {
+        addrs().get(code - 1).map(Some).ok_or_else(|| "no such lead address".to_string())
+    }
+}
+fn lead_code(net: usize, k: usize) -> usize {
+    net * PER_NET + k + 1
 }
 
 // ---------------------------------------------------------------------------------------------
@@ -163,6 +230,20 @@ fn accepted_clauses(r: &TransactionRequest) -> Result<(), String> {
         (Some(s), Err(_)) if s > MAX_MONEY as u128 => {}
         (e, g) => return Err(format!("total() = {g:?} but the exact sum is {e:?}")),
     }
+    // whatever the parser (or a constructor) let through must be a payment the validating constructor builds
+    for (i, p) in r.payments() {
+        let rebuilt = catch(|| Payment::new(p.recipient_address().clone(), p.amount(), p.memo().cloned(), p.label().cloned(), p.message().cloned(), p.other_params().to_vec()))
+            .map_err(|e| format!("Payment::new panicked: {e}"))?;
+        match rebuilt {
+            Ok(q) if &q == p => {}
+            Ok(_) => return Err(format!("payment {i}: Payment::new on its own parts gives a different payment")),
+            Err(e) => return Err(format!("payment {i} to {} was accepted, but Payment::new refuses exactly these parts: {e:?}", p.recipient_address().encode())),
+        }
+        let mut names: BTreeSet<&str> = BTreeSet::new();
+        if !p.other_params().iter().all(|(n, _)| names.insert(n.as_str())) {
+            return Err(format!("payment {i} holds a repeated parameter name: {:?}", p.other_params()));
+        }
+    }
     for (i, p) in &obs {
         if *i > 9999 {
             return Err(format!("payment index {i} above 9999"));
@@ -198,6 +279,8 @@ pub struct Tok {
     /// `None`: the index is malformed (".0", ".01", ".10000")
     idx: Option<usize>,
     sem: Sem,
+    /// member of the alphabet of the main sweep
+    main: bool,
 }
 
 fn idx_of(suffix: &str) -> Option<usize> {
@@ -210,7 +293,11 @@ fn idx_of(suffix: &str) -> Option<usize> {
     }
 }
 
-const LEADS: [Option<usize>; 4] = [None, Some(0), Some(2), Some(5)]; // none, sapling, p2pkh, unified (testnet)
+/// Lead addresses of the main sweep (testnet): none, and one recipient for each value of the predicate pair
+/// (memo allowed, transparent output) in plain and unified form.
+fn main_leads() -> Vec<usize> {
+    vec![0, lead_code(1, 0), lead_code(1, 2), lead_code(1, 5), lead_code(1, 9), lead_code(1, 10)]
+}
 
 pub fn tokens() -> &'static Vec<Tok> {
     static T: OnceLock<Vec<Tok>> = OnceLock::new();
@@ -218,6 +305,7 @@ pub fn tokens() -> &'static Vec<Tok> {
         let sap2 = addr(1, 1);
         let taddr = addr(1, 2);
         let tex = addr(1, 4);
+        let ua_unknown = addr(1, 9);
         let mut bad = sap2.s.clone();
         let last = bad.pop().unwrap();
         bad.push(if last == 'q' { 'p' } else { 'q' });
@@ -225,46 +313,65 @@ pub fn tokens() -> &'static Vec<Tok> {
         memo512[511] = 7;
         let memo513 = vec![0x41u8; 513];
         let mut v = Vec::new();
-        let mut t = |name: &str, ix: &str, value: String, sem: Sem| {
-            v.push(Tok { text: format!("{name}{ix}={value}"), idx: idx_of(ix), sem });
+        let mut t = |main: bool, name: &str, ix: &str, value: String, sem: Sem| {
+            v.push(Tok { text: format!("{name}{ix}={value}"), idx: idx_of(ix), sem, main });
         };
-        t("address", "", sap2.s.clone(), Sem::Addr(sap2));
-        t("address", ".1", sap2.s.clone(), Sem::Addr(sap2));
-        t("address", ".1", taddr.s.clone(), Sem::Addr(taddr));
-        t("address", ".2", tex.s.clone(), Sem::Addr(tex));
-        t("address", ".9999", taddr.s.clone(), Sem::Addr(taddr));
-        t("address", ".10000", sap2.s.clone(), Sem::Addr(sap2));
-        t("address", ".01", sap2.s.clone(), Sem::Addr(sap2));
-        t("address", ".0", sap2.s.clone(), Sem::Addr(sap2));
-        t("address", ".1", bad, Sem::BadAddr);
-        t("amount", "", "1".into(), Sem::Amount(COIN));
-        t("amount", "", "0".into(), Sem::Amount(0));
-        t("amount", ".1", "0".into(), Sem::Amount(0));
-        t("amount", ".1", "21000000".into(), Sem::Amount(MAX_MONEY));
-        t("amount", ".1", "21000000.00000001".into(), Sem::BadAmount);
-        t("amount", ".2", "0.00000001".into(), Sem::Amount(1));
-        t("amount", "", "1.123456789".into(), Sem::BadAmount);
-        t("amount", ".1", "1.".into(), Sem::BadAmount);
-        t("amount", ".9999", "0.1".into(), Sem::Amount(COIN / 10));
-        t("amount", ".01", "1".into(), Sem::Amount(COIN));
-        t("memo", "", b64url(b"hi"), Sem::Memo(pad512(b"hi")));
-        t("memo", ".1", b64url(&memo512), Sem::Memo(memo512.clone()));
-        t("memo", ".2", b64url(&memo513), Sem::BadMemo);
-        t("memo", ".1", "!!!!".into(), Sem::BadMemo);
-        t("label", "", "abc".into(), Sem::Label("abc".into()));
-        t("label", ".1", "a%20b".into(), Sem::Label("a b".into()));
-        t("label", ".1", "".into(), Sem::Label("".into()));
-        t("message", "", "x".into(), Sem::Message("x".into()));
-        t("message", ".1", "%E2%82%AC".into(), Sem::Message("€".into()));
-        t("message", ".10000", "x".into(), Sem::Message("x".into()));
-        t("other", "", "1".into(), Sem::Other("other".into(), "1".into()));
-        t("other", ".1", "1".into(), Sem::Other("other".into(), "1".into()));
-        t("other", ".1", "2".into(), Sem::Other("other".into(), "2".into()));
-        t("foo", ".1", "bar".into(), Sem::Other("foo".into(), "bar".into()));
-        t("req-x", "", "1".into(), Sem::Req);
-        t("req-x", ".1", "1".into(), Sem::Req);
+        t(true, "address", "", sap2.s.clone(), Sem::Addr(sap2));
+        t(true, "address", ".1", sap2.s.clone(), Sem::Addr(sap2));
+        t(true, "address", ".1", taddr.s.clone(), Sem::Addr(taddr));
+        t(true, "address", ".1", ua_unknown.s.clone(), Sem::Addr(ua_unknown));
+        t(true, "address", ".2", tex.s.clone(), Sem::Addr(tex));
+        t(true, "address", ".9999", taddr.s.clone(), Sem::Addr(taddr));
+        t(true, "address", ".10000", sap2.s.clone(), Sem::Addr(sap2));
+        t(true, "address", ".01", sap2.s.clone(), Sem::Addr(sap2));
+        t(true, "address", ".0", sap2.s.clone(), Sem::Addr(sap2));
+        t(true, "address", ".1", bad, Sem::BadAddr);
+        t(true, "amount", "", "1".into(), Sem::Amount(COIN));
+        t(true, "amount", "", "0".into(), Sem::Amount(0));
+        t(true, "amount", ".1", "0".into(), Sem::Amount(0));
+        t(true, "amount", ".1", "21000000".into(), Sem::Amount(MAX_MONEY));
+        t(true, "amount", ".1", "21000000.00000001".into(), Sem::BadAmount);
+        t(true, "amount", ".2", "0.00000001".into(), Sem::Amount(1));
+        t(true, "amount", "", "1.123456789".into(), Sem::BadAmount);
+        t(true, "amount", ".1", "1.".into(), Sem::BadAmount);
+        t(true, "amount", ".9999", "0.1".into(), Sem::Amount(COIN / 10));
+        t(true, "amount", ".01", "1".into(), Sem::Amount(COIN));
+        t(true, "memo", "", b64url(b"hi"), Sem::Memo(pad512(b"hi")));
+        t(true, "memo", ".1", b64url(&memo512), Sem::Memo(memo512.clone()));
+        t(true, "memo", ".2", b64url(&memo513), Sem::BadMemo);
+        t(true, "memo", ".1", "!!!!".into(), Sem::BadMemo);
+        t(true, "label", "", "abc".into(), Sem::Label("abc".into()));
+        t(true, "label", ".1", "a%20b".into(), Sem::Label("a b".into()));
+        t(true, "label", ".1", "".into(), Sem::Label("".into()));
+        t(true, "message", "", "x".into(), Sem::Message("x".into()));
+        t(true, "message", ".1", "%E2%82%AC".into(), Sem::Message("€".into()));
+        t(true, "message", ".10000", "x".into(), Sem::Message("x".into()));
+        // unknown parameters: two names, each available twice with different values, at two indices (the duplicate
+        // scan must find a repeat wherever it stands among the unknown names already seen)
+        for ix in ["", ".1"] {
+            for (n, val) in [("foo", "a"), ("foo", "b"), ("bar", "x"), ("bar", "y")] {
+                t(true, n, ix, val.into(), Sem::Other(n.into(), val.into()));
+            }
+        }
+        t(true, "req-x", "", "1".into(), Sem::Req);
+        t(true, "req-x", ".1", "1".into(), Sem::Req);
+        // tokens used by the dedicated sweeps only
+        t(false, "baz", "", "1".into(), Sem::Other("baz".into(), "1".into()));
+        t(false, "baz", "", "2".into(), Sem::Other("baz".into(), "2".into()));
+        t(false, "amount", "", "0.00000001".into(), Sem::Amount(1));
+        t(false, "amount", ".1", "0.00000001".into(), Sem::Amount(1));
+        for a in addrs() {
+            for ix in ["", ".1"] {
+                t(false, "address", ix, a.s.clone(), Sem::Addr(a));
+            }
+        }
         v
     })
+}
+
+/// Index of the first token with exactly this text.
+fn tok(text: &str) -> usize {
+    tokens().iter().position(|t| t.text == text).unwrap_or_else(|| mc_core::machinery_error(&format!("C12: no token {text}")))
 }
 
 #[derive(Debug)]
@@ -364,7 +471,7 @@ fn render_uri(lead: Option<&Addr>, toks: &[&Tok]) -> String {
 }
 
 pub fn check_uri(lead_i: usize, tok_is: &[usize]) -> Result<String, String> {
-    let lead = LEADS.get(lead_i).ok_or("lead")?.map(|k| addr(1, k));
+    let lead = lead_addr(lead_i)?;
     let all = tokens();
     let toks: Vec<&Tok> = tok_is.iter().map(|i| all.get(*i).ok_or("token")).collect::<Result<_, _>>()?;
     let uri = render_uri(lead, &toks);
@@ -390,42 +497,94 @@ pub fn check_uri(lead_i: usize, tok_is: &[usize]) -> Result<String, String> {
     }
 }
 
-fn sweep_uris(run: &Run, maxlen: usize, deeper_wellformed: Option<usize>) {
-    run.section("token_alphabet", json!(tokens().iter().map(|t| if t.text.len() > 60 { format!("{}…", &t.text[..60]) } else { t.text.clone() }).collect::<Vec<_>>()));
-    let all: Vec<usize> = (0..tokens().len()).collect();
+fn sweep_uris(run: &Run, tier: Tier) {
+    let maxlen = tier.pick(3, 4);
+    let show = |i: usize| {
+        let t = &tokens()[i].text;
+        if t.len() > 60 { format!("{}…", &t[..60]) } else { t.clone() }
+    };
+    let main: Vec<usize> = (0..tokens().len()).filter(|i| tokens()[*i].main).collect();
+    let leads = main_leads();
+    run.section("token_alphabet", json!(main.iter().map(|i| show(*i)).collect::<Vec<_>>()));
+    run.section("lead_addresses", json!(leads.iter().map(|c| lead_addr(*c).ok().flatten().map(|a| a.name.clone()).unwrap_or("none".into())).collect::<Vec<_>>()));
     // one pass per length, shortest first, so that the recorded counterexamples are the shortest ones
     for len in 0..=maxlen {
-        sweep_uri_level(run, len, &all);
+        sweep_uri_level(run, &leads, &[], &main, len, None, None);
     }
-    if let Some(len) = deeper_wellformed {
+    if tier == Tier::Thorough {
         // one level deeper over the tokens that are well-formed on their own (a malformed token makes the URI invalid
-        // wherever it stands, so it adds no interplay)
-        let sub: Vec<usize> = tokens()
-            .iter()
-            .enumerate()
-            .filter(|(_, t)| t.idx.is_some() && !matches!(t.sem, Sem::BadAddr | Sem::BadAmount | Sem::BadMemo))
-            .map(|(i, _)| i)
-            .collect();
-        run.section("token_sub_alphabet_deeper", json!({"length": len, "tokens": sub}));
-        sweep_uri_level(run, len, &sub);
+        // wherever it stands, so it adds no interplay), four of the lead choices
+        let sub: Vec<usize> = main.iter().copied().filter(|i| tokens()[*i].idx.is_some() && !matches!(tokens()[*i].sem, Sem::BadAddr | Sem::BadAmount | Sem::BadMemo)).collect();
+        run.section("token_sub_alphabet_deeper", json!({"length": 5, "tokens": sub.len(), "leads": 4}));
+        sweep_uri_level(run, &[0, lead_code(1, 0), lead_code(1, 2), lead_code(1, 9)], &[], &sub, 5, None, None);
+    }
+    // Duplicate scan: every sequence over three unknown names (each twice) and the four known optional
+    // parameters, deeper than the main sweep, at index none and at index .1
+    let sap = lead_code(1, 0);
+    let d0: Vec<usize> = ["foo=a", "foo=b", "bar=x", "bar=y", "baz=1", "baz=2", "amount=1", "label=abc", "message=x"].iter().map(|t| tok(t)).chain([tok(&format!("memo={}", b64url(b"hi")))]).collect();
+    for len in 0..=tier.pick(5, 6) {
+        sweep_uri_level(run, &[sap], &[], &d0, len, Some(maxlen), None);
+    }
+    let d1: Vec<usize> = ["foo.1=a", "foo.1=b", "bar.1=x", "bar.1=y", "amount.1=21000000", "label.1=a%20b", "message.1=%E2%82%AC"].iter().map(|t| tok(t)).collect();
+    let a1 = tok(&format!("address.1={}", addr(1, 1).s));
+    for len in 0..=tier.pick(5, 6) {
+        sweep_uri_level(run, &[sap, 0], &[a1], &d1, len, Some(maxlen), None);
+    }
+    // Recipient sweep: every recipient kind on every network, as lead address, as `address=` and as `address.1=`,
+    // with every sequence of the parameters whose validity depends on the recipient
+    let s0: Vec<usize> = vec![tok("amount=0"), tok("amount=0.00000001"), tok(&format!("memo={}", b64url(b"hi"))), tok("label=abc")];
+    let mut memo512 = vec![0xf5u8; 512];
+    memo512[511] = 7;
+    let s1: Vec<usize> = vec![tok("amount.1=0"), tok("amount.1=0.00000001"), tok(&format!("memo.1={}", b64url(&memo512))), tok("label.1=a%20b")];
+    run.section("recipients", json!(addrs().iter().map(|a| json!({"name": a.name, "memo_allowed": a.memo_ok, "transparent_output": a.t_only})).collect::<Vec<_>>()));
+    let mut seen_strings: BTreeSet<&str> = BTreeSet::new();
+    for (k, a) in addrs().iter().enumerate() {
+        if !seen_strings.insert(a.s.as_str()) {
+            continue; // regtest shares the testnet string for Base58 kinds
+        }
+        for len in 0..=3 {
+            sweep_uri_level(run, &[k + 1], &[], &s0, len, Some(maxlen), None);
+        }
+        let t0 = tok(&format!("address={}", a.s));
+        let t1 = tok(&format!("address.1={}", a.s));
+        let mut with0 = s0.clone();
+        with0.push(t0);
+        let mut with1 = s1.clone();
+        with1.push(t1);
+        for len in 1..=4 {
+            sweep_uri_level(run, &[0], &[], &with0, len, Some(maxlen), Some(t0));
+            sweep_uri_level(run, &[sap], &[], &with1, len, Some(maxlen), Some(t1));
+        }
     }
 }
 
-fn sweep_uri_level(run: &Run, len: usize, alphabet: &[usize]) {
+/// All sequences `prefix ++ s`, s of length `len` over `alphabet`, for every lead in `leads`. With
+/// `skip_main = Some(m)`, cases that the main sweep already contains (main lead, main tokens, length <= m) are skipped.
+fn sweep_uri_level(run: &Run, leads: &[usize], prefix: &[usize], alphabet: &[usize], len: usize, skip_main: Option<usize>, must_contain: Option<usize>) {
     let nt = alphabet.len() as u64;
     let per_lead = nt.pow(len as u32);
-    let total = per_lead * LEADS.len() as u64;
+    let total = per_lead * leads.len() as u64;
+    let mains = main_leads();
     const CH: u64 = 2048;
     (0..total.div_ceil(CH)).into_par_iter().for_each(|c| {
         let mut n = 0u64;
         let mut outcomes: BTreeMap<String, u64> = BTreeMap::new();
-        let mut seq = vec![0usize; len];
+        let mut seq = vec![0usize; prefix.len() + len];
+        seq[..prefix.len()].copy_from_slice(prefix);
         for code in c * CH..((c + 1) * CH).min(total) {
-            let lead = (code / per_lead) as usize;
+            let lead = leads[(code / per_lead) as usize];
             let mut rest = code % per_lead;
-            for slot in seq.iter_mut().rev() {
+            for slot in seq[prefix.len()..].iter_mut().rev() {
                 *slot = alphabet[(rest % nt) as usize];
                 rest /= nt;
+            }
+            if must_contain.is_some_and(|t| !seq.contains(&t)) {
+                continue;
+            }
+            if let Some(m) = skip_main {
+                if seq.len() <= m && mains.contains(&lead) && seq.iter().all(|i| tokens()[*i].main) {
+                    continue;
+                }
             }
             n += 1;
             match check_uri(lead, &seq) {
@@ -827,7 +986,7 @@ pub fn check_memo(b: &[u8]) -> Result<&'static str, String> {
             Ok(m2) if m2 == mb => {}
             other => return Err(format!("memo_from_base64(memo_to_base64(m)) = {other:?}")),
         }
-        for a in [addr(1, 0), addr(1, 5), addr(1, 6), addr(1, 7)] {
+        for a in addrs()[PER_NET..2 * PER_NET].iter().filter(|a| a.memo_ok) {
             let p = Payment::new(a.z.clone(), None, Some(mb.clone()), None, None, vec![]).map_err(|e| format!("memo to {} refused: {e:?}", a.name))?;
             let r = TransactionRequest::new(vec![p]).map_err(|e| format!("request with memo refused: {e:?}"))?;
             let uri = r.to_uri();
@@ -845,7 +1004,7 @@ pub fn check_memo(b: &[u8]) -> Result<&'static str, String> {
             }
         }
         // transparent recipients cannot take it
-        for a in [addr(1, 2), addr(1, 3), addr(1, 4)] {
+        for a in addrs().iter().filter(|a| !a.memo_ok) {
             if !matches!(Payment::new(a.z.clone(), None, Some(mb.clone()), None, None, vec![]), Err(PaymentError::TransparentMemo)) {
                 return Err(format!("Payment::new accepted a memo for {}", a.name));
             }
@@ -977,6 +1136,42 @@ pub fn check_request(set_i: usize, shift: usize) -> Result<&'static str, String>
     Ok("request:ok")
 }
 
+const OTHER_PAIRS: [(&str, &str); 5] = [("foo", "a"), ("foo", "b"), ("bar", "x"), ("bar", "y"), ("baz", "1")];
+
+/// `TransactionRequest::new` on a payment whose other_params is the list coded by `code` (base 5, `len` entries), as
+/// the first or the second payment: refused iff a name repeats; otherwise the list survives in order.
+pub fn check_others(len: usize, mut code: usize, second: bool) -> Result<&'static str, String> {
+    let mut list: Vec<(String, String)> = Vec::new();
+    for _ in 0..len {
+        let (n, v) = OTHER_PAIRS[code % OTHER_PAIRS.len()];
+        list.push((n.to_string(), v.to_string()));
+        code /= OTHER_PAIRS.len();
+    }
+    let mut names = BTreeSet::new();
+    let repeated = !list.iter().all(|(n, _)| names.insert(n.clone()));
+    let a = addr(1, 0);
+    let plain = Payment::without_memo(addr(1, 2).z.clone(), Zatoshis::const_from_u64(5));
+    // Payment::new documents only the memo and zero-value checks; a refusal here is fine when a name repeats
+    let p = match catch(|| Payment::new(a.z.clone(), Some(Zatoshis::const_from_u64(1)), None, None, None, list.clone())).map_err(|e| format!("Payment::new panicked: {e}"))? {
+        Ok(p) => p,
+        Err(_) if repeated => return Ok("others:payment-refused"),
+        Err(e) => return Err(format!("Payment::new refused distinct other_params {list:?}: {e:?}")),
+    };
+    let payments = if second { vec![plain, p] } else { vec![p] };
+    match catch(|| TransactionRequest::new(payments)).map_err(|e| format!("TransactionRequest::new panicked: {e}"))? {
+        Err(_) if repeated => Ok("others:repeated-name-refused"),
+        Err(e) => Err(format!("TransactionRequest::new refused distinct other_params {list:?}: {e:?}")),
+        Ok(_) if repeated => Err(format!("TransactionRequest::new accepted a payment whose other_params repeat a name: {list:?}")),
+        Ok(r) => {
+            accepted_clauses(&r)?;
+            if observe(&r).get(&(second as usize)).map(|p| &p.others) != Some(&list) {
+                return Err(format!("other_params {list:?} not held in order"));
+            }
+            Ok("others:ok")
+        }
+    }
+}
+
 pub fn check_limits() -> Result<&'static str, String> {
     let p = lattice_payment(0);
     let over = catch(|| TransactionRequest::from_indexed(BTreeMap::from([(10000usize, p.clone())]))).map_err(|p| format!("from_indexed panicked: {p}"))?;
@@ -1049,6 +1244,7 @@ pub fn replay(kind: &str, case: &Value) -> Result<(), String> {
         "payment" => check_payment(u("addr")?, u("amount")?, case["memo"].as_bool().ok_or("memo")?).map(|_| ()),
         "request" => check_request(u("set")?, u("shift")?).map(|_| ()),
         "limits" => check_limits().map(|_| ()),
+        "others" => check_others(u("len")?, u("code")?, case["second"].as_bool().ok_or("second")?).map(|_| ()),
         "raw-uri" => check_raw_uri(case["uri"].as_str().ok_or("uri")?).map(|_| ()),
         _ => Err(format!("unknown kind {kind}")),
     }
@@ -1058,11 +1254,18 @@ pub fn run(args: &Args) -> i32 {
     let run = Run::new(args, "exploration");
     let maxlen = args.tier.pick(3, 4);
     run.set_rule(&format!(
-        "URIs: 4 lead-address choices x every sequence (with repetition, every order) of length 0..={maxlen} over the 35-token parameter \
-         alphabet (name x index form x value variant), each rendered to a distinct string (thorough tier: also every length-5 sequence over the tokens that are well-formed on their own); amounts: {} ; labels/messages/other values: \
+        "URIs: 6 lead-address choices (none and one recipient per value of the predicates memo-allowed / transparent-output, plain and \
+         unified) x every sequence (with repetition, every order) of length 0..={maxlen} over the 40-token parameter alphabet (name x \
+         index form x value variant; two unknown names each twice at two indices){}; a duplicate-scan sweep (every sequence of length \
+         <= {} over 3 unknown names each twice + amount/label/message/memo, at index none and behind address.1 at index .1); a recipient \
+         sweep (every recipient kind on 3 networks as lead, as address= and as address.1= x every sequence of length <= 3 resp. 4 of \
+         {{amount 0, amount 1 zat, memo, label}}); each case renders to a distinct string; amounts: {} ; labels/messages/other values: \
          every ASCII character in 7 contexts and all pairs of a 42-string UTF-8/percent lattice x 3 fields x 2 index positions; memos: \
-         12 lengths x 11 lead bytes x 8 tail patterns; Payment::new on 24 recipients x 4 amounts x 2 memo choices; requests at 10 index \
+         12 lengths x 11 lead bytes x 8 tail patterns x every recipient; Payment::new on 36 recipients x 4 amounts x 2 memo choices; \
+         TransactionRequest::new on every other_params list of length <= 4 over 5 (name,value) pairs x 2 positions; requests at 10 index \
          sets x 4 payment assignments. A case is distinct by its generating tuple and non-trivial because each is a full parse and/or render",
+        args.tier.pick("", " (thorough tier: also every length-5 sequence over the tokens that are well-formed on their own, 4 leads)"),
+        args.tier.pick(5, 6),
         args.tier.pick(
             "quick tier: all fractional parts with at most 4 non-zero digits, all below 1000 and the boundaries x coins {0,1,20999999}, and the same subset of coin values x fractions {0,1,10^7,99999999} (the complete sweeps run in the thorough tier)",
             "all 10^8 fractional parts x coins {0,1,20999999} and all 21000001 coin values x fractions {0,1,10^7,99999999}"
@@ -1073,9 +1276,10 @@ pub fn run(args: &Args) -> i32 {
     run.assume("whole and fractional parts of an amount are converted independently (visible in amount_str/parse_amount); the two sweeps cover each part exhaustively against boundary values of the other");
     run.assume("other_params names are outside {address, amount, memo, label, message} and do not start with req- (documented precondition of the crate's own generators)");
     run.assume("total(): documented both as Ok(None) when a payment has no amount and as Err when a summation step leaves the range; when both hold either answer is accepted");
-    run.assume("which recipients can take a memo / are transparent-only is stated by the harness from the protocol (Sprout, Sapling, UA with shielded receiver: memo; P2PKH, P2SH, TEX: transparent-only)");
+    run.assume("which recipients can take a memo / give a transparent output is stated by the harness from ZIP 321 / ZIP 316 and the documentation of is_transparent_only: memo iff Sprout, Sapling or a unified address with a Sapling/Orchard receiver; transparent output iff P2PKH, P2SH, TEX or a unified address with a transparent receiver and no Sapling/Orchard receiver");
+    run.assume("anything from_uri or TransactionRequest::new lets through must be a payment that Payment::new builds from the same parts (the constructor documents the memo and zero-value rules)");
 
-    sweep_uris(&run, maxlen, (args.tier == Tier::Thorough).then_some(5));
+    sweep_uris(&run, args.tier);
     run.section("t_uris_s", json!(run.elapsed()));
     if std::env::var("VERIF_C12_SKIP_AMOUNTS").is_ok() {
         run.cap_hit("debug switch VERIF_C12_SKIP_AMOUNTS set: amount sweeps not run");
@@ -1110,6 +1314,17 @@ pub fn run(args: &Args) -> i32 {
             match check_request(set, shift) {
                 Ok(o) => run.outcome(o),
                 Err(m) => run.fail("request", format!("request:{:?}:{shift}", INDEX_SETS[set]), m, json!({"set": set, "shift": shift})),
+            }
+        }
+    }
+    for len in 0..=4usize {
+        for code in 0..OTHER_PAIRS.len().pow(len as u32) {
+            for second in [false, true] {
+                run.eval(format!("others:{len}:{code}:{second}").as_bytes());
+                match check_others(len, code, second) {
+                    Ok(o) => run.outcome(o),
+                    Err(m) => run.fail("others", format!("others:len{len}:code{code}:second={second}"), m, json!({"len": len, "code": code, "second": second})),
+                }
             }
         }
     }
